@@ -15,6 +15,8 @@
 package goleveldb
 
 import (
+	"bytes"
+
 	"github.com/blevesearch/goleveldb/leveldb"
 	"github.com/blevesearch/goleveldb/leveldb/util"
 	store "github.com/blevesearch/upsidedown_store_api"
@@ -59,6 +61,13 @@ func (r *Reader) PrefixIterator(prefix []byte) store.KVIterator {
 }
 
 func (r *Reader) RangeIterator(start, end []byte) store.KVIterator {
+	if end != nil && bytes.Compare(start, end) > 0 {
+		// an inverted range is empty, but goleveldb slices its table list
+		// with it and panics (slice bounds out of range) once tables have
+		// been compacted below level 0; a term range query with min > max
+		// on upsidedown gets here
+		end = start
+	}
 	byteRange := &util.Range{
 		Start: start,
 		Limit: end,
